@@ -159,6 +159,17 @@ def getIterDirection : List Nat → Option Dir
   | 1 :: _ => some .bwd
   | _ :: _ => none
 
+/-- `utils.SortSlice(slice, dirs...)`: `sort.StringSlice` order or its reverse (`none`: unknown direction, panic). -/
+def sortSlice (keys : List Bytes) (dirs : List Nat) : Option (List Bytes) :=
+  (getIterDirection dirs).map (fun d => sortBy (dirLt d) keys)
+
+/-- `byteutils.ReadAvailableBytesToBuffer(target, targetOffset, source, sourceOffset, sourceLength)` for offsets inside
+the slices (`targetOffset ≤ len(target)`, `sourceOffset ≤ sourceLength ≤ len(source)`): copies
+`min(sourceLength - sourceOffset, len(target) - targetOffset)` bytes; the new content of `target` and that number. -/
+def readAvailable (target : Bytes) (tOff : Nat) (source : Bytes) (sOff sLen : Nat) : Bytes × Nat :=
+  let n := min (sLen - sOff) (target.length - tOff)
+  (target.take tOff ++ (source.drop sOff).take n ++ target.drop (tOff + n), n)
+
 /-! ## line protocol of `drv_c04` -/
 open Hive.Proto
 
@@ -176,6 +187,14 @@ def pureLine : List String → Option String
   | "concat" :: parts => do pure ("bytes " ++ hex (concatBytes (← parts.mapM unhex)))
   | ["copybytes", src, "-"] => do pure ("bytes " ++ hex (copyBytes (← unhex src) none))
   | ["copybytes", src, n] => do pure ("bytes " ++ hex (copyBytes (← unhex src) (some (← n.toNat?))))
+  | "sort" :: d :: keys => do
+    let dirs ← if d == "def" then some [] else (d.toNat?).map (fun n => [n])
+    match sortSlice (← keys.mapM unhex) dirs with
+    | some l => pure (" ".intercalate ("keys" :: l.map hex))
+    | none => pure "panic"
+  | ["readavail", target, tOff, source, sOff, sLen] => do
+    let r := readAvailable (← unhex target) (← tOff.toNat?) (← unhex source) (← sOff.toNat?) (← sLen.toNat?)
+    pure ("bytes " ++ hex r.1 ++ " " ++ toString r.2)
   | "dir" :: args => do
     match getIterDirection (← args.mapM String.toNat?) with
     | some .fwd => pure "fwd"
